@@ -32,7 +32,13 @@ Definition is_rust_keyword (s : string) : bool := mem s generator_keywords.
 (* keywords the generator knows it cannot write as r#ident (none on a tree without that list) *)
 Definition is_unrawable (s : string) : bool := mem s generator_unrawable.
 
-(* :489-520 *)
+(* escape_ident: keywords are written r#kw, the keywords that cannot be raw get a trailing underscore;
+   ident_name = strip_prefix("r#"); type_ident = escape_ident(PascalCase) *)
+Definition escape_ident (s : string) : string :=
+  if is_unrawable s then s ++ "_" else if is_rust_keyword s then "r#" ++ s else s.
+Definition type_ident (n : string) : string := escape_ident (to_pascal_case n).
+
+(* fn type_to_rust *)
 Fixpoint type_to_rust (t : idl_ty) : string :=
   match t with
   | TBool => "bool" | TInt => "i64" | TFloat => "f64" | TString => "String"
@@ -42,7 +48,7 @@ Fixpoint type_to_rust (t : idl_ty) : string :=
   | TMap v => "std::collections::HashMap<String, " ++ type_to_rust v ++ ">"
   | TForeign => "serde_json::Value"
   | TOptional i => "Option<" ++ type_to_rust i ++ ">"
-  | TCustom n => to_pascal_case n
+  | TCustom n => type_ident n
   end.
 
 (* :558-581 *)
@@ -55,7 +61,7 @@ Fixpoint type_to_rust_param_elem (t : idl_ty) : string :=
   | TMap v => "std::collections::HashMap<&str, " ++ type_to_rust_param_elem v ++ ">"
   | TForeign => "serde_json::Value"
   | TOptional i => "Option<" ++ type_to_rust_param_elem i ++ ">"
-  | TCustom n => to_pascal_case n
+  | TCustom n => type_ident n
   end.
 
 (* :522-554 *)
@@ -68,7 +74,7 @@ Fixpoint type_to_rust_param (t : idl_ty) : string :=
   | TMap v => "&std::collections::HashMap<&str, " ++ type_to_rust_param_elem v ++ ">"
   | TForeign => "&serde_json::Value"
   | TOptional i => "Option<" ++ type_to_rust_param i ++ ">"
-  | TCustom n => "&" ++ to_pascal_case n
+  | TCustom n => "&" ++ type_ident n
   end.
 
 (* :583-624 *)
@@ -87,7 +93,7 @@ Fixpoint type_to_rust_output (t : idl_ty) : string :=
   | TMap v => "std::collections::HashMap<&'a str, " ++ out_elem v ++ ">"
   | TForeign => "serde_json::Value"
   | TOptional i => "Option<" ++ type_to_rust_output i ++ ">"
-  | TCustom n => to_pascal_case n
+  | TCustom n => type_ident n
   end.
 
 (* :631-643 and :645-657 (the two functions have the same body) *)
@@ -95,15 +101,12 @@ Fixpoint type_needs_lifetime (t : idl_ty) : bool :=
   match t with
   | TString => true
   | TEnum _ => true
-  | TArray i => type_needs_lifetime i
+  | TArray i => match i with TString | TEnum _ => true | _ => false end
   | TMap _ => true
   | TOptional i => type_needs_lifetime i
   | _ => false
   end.
 Definition type_needs_borrow := type_needs_lifetime.
-
-(* `r#` escaping as done at every site: :200-204, :291-295, :358-362, :370-374, :435-439 *)
-Definition safe_ident (s : string) : string := if is_rust_keyword s then "r#" ++ s else s.
 
 Definition some_if (b : bool) (s : string) : option string := if b then Some s else None.
 
@@ -111,7 +114,7 @@ Definition some_if (b : bool) (s : string) : option string := if b then Some s e
 Definition gen_field (f : ifield) : gfield :=
   let n := f_name f in
   let sn := to_snake_case n in
-  {| gf_ident := safe_ident sn;
+  {| gf_ident := escape_ident sn;
      gf_rename := some_if (is_rust_keyword sn || negb (String.eqb sn n)) n;
      gf_ty := type_to_rust (f_ty f); gf_borrow := false |}.
 
@@ -122,27 +125,32 @@ Definition gen_error_field (f : ifield) : gfield := gen_field f.
 Definition gen_output_field (lt : bool) (f : ifield) : gfield :=
   let n := f_name f in
   let sn := to_snake_case n in
-  {| gf_ident := safe_ident sn;
-     gf_rename := some_if (negb (String.eqb sn n)) n;
+  let id := escape_ident sn in
+  {| gf_ident := id;
+     gf_rename := some_if (negb (String.eqb (unraw id) n)) n;
      gf_ty := if lt then type_to_rust_output (f_ty f) else type_to_rust (f_ty f);
      gf_borrow := lt && type_needs_borrow (f_ty f) |}.
 
 (* :368-385 parameters: rename when the (escaped) identifier differs from the name *)
 Definition gen_param (f : ifield) : gfield :=
   let n := f_name f in
-  let id := safe_ident (to_snake_case n) in
+  let id := escape_ident (to_snake_case n) in
   {| gf_ident := id; gf_rename := some_if (negb (String.eqb id n)) n;
      gf_ty := type_to_rust_param (f_ty f); gf_borrow := false |}.
 
 Definition outputs_need_lifetime (m : imethod) : bool :=
   existsb (fun o => type_needs_lifetime (f_ty o)) (m_outputs m).
 
-(* :347-413 generate_proxy_method_signature. [MODEL SWITCH] method_rename: no attribute is emitted
-   for methods on this tree. *)
-Definition method_rename (name ident : string) : option string := None.
+(* generate_proxy_method_signature: a keyword gets a trailing underscore (the proxy macro cannot take
+   raw method identifiers); #[zlink(rename)] when the macro's own derivation from the identifier
+   (fn proxy_method_name, a copy of the macro's snake_case_to_pascal_case) is not the IDL name *)
+Definition method_ident (name : string) : string :=
+  let sn := to_snake_case name in if is_rust_keyword sn then sn ++ "_" else sn.
+Definition method_rename (name ident : string) : option string :=
+  some_if (negb (String.eqb (proxy_pascal ident) name)) name.
 
 Definition gen_method (m : imethod) : gmethod :=
-  let id := safe_ident (to_snake_case (m_name m)) in
+  let id := method_ident (m_name m) in
   {| gm_ident := id;
      gm_rename := method_rename (m_name m) id;
      gm_params := map gen_param (m_inputs m);
@@ -161,9 +169,11 @@ Definition gen_output_struct (m : imethod) : list gstruct :=
                  gs_fields := map (gen_output_field lt) outs |} ]
   end.
 
-(* :122-170. [MODEL SWITCH] variant_rename: none on this tree (only the blanket rename_all) *)
-Definition variant_ident (name : string) : string := to_pascal_case name.
-Definition variant_rename (name ident : string) : option string := None.
+(* generate_custom_enum: PascalCase variants under rename_all = "snake_case", plus #[serde(rename)]
+   where rename_all (fn serde_snake_case, a copy of serde's rule) would not give the IDL value *)
+Definition variant_ident (name : string) : string := escape_ident (to_pascal_case name).
+Definition variant_rename (name ident : string) : option string :=
+  some_if (negb (String.eqb (serde_snake_variant ident) name)) name.
 Definition gen_variant (v : ivariant) : gvariant :=
   let id := variant_ident (fst v) in
   {| gv_ident := id; gv_rename := variant_rename (fst v) id |}.
@@ -172,7 +182,7 @@ Fixpoint gen_custom_structs (cs : list custom_ty) : list gstruct :=
   match cs with
   | [] => []
   | CObject n fs _ :: r =>
-      {| gs_name := to_pascal_case n; gs_lifetime := false; gs_fields := map gen_field fs |}
+      {| gs_name := type_ident n; gs_lifetime := false; gs_fields := map gen_field fs |}
       :: gen_custom_structs r
   | CEnum _ _ _ :: r => gen_custom_structs r
   end.
@@ -180,7 +190,7 @@ Fixpoint gen_custom_enums (cs : list custom_ty) : list genum :=
   match cs with
   | [] => []
   | CEnum n vs _ :: r =>
-      {| ge_name := to_pascal_case n; ge_rename_all := Some "snake_case";
+      {| ge_name := type_ident n; ge_rename_all := Some "snake_case";
          ge_variants := map gen_variant vs |} :: gen_custom_enums r
   | CObject _ _ _ :: r => gen_custom_enums r
   end.
@@ -190,8 +200,11 @@ Definition last_segment (s : string) : string :=
   l2s (last (split_on (fun c => Ascii.eqb c "."%char) [] (s2l s)) []).
 Definition interface_name_to_rust (s : string) : string := to_pascal_case (last_segment s).
 
-(* :211-245 generate_errors. [MODEL SWITCH] error_ident: PascalCase of the error name *)
-Definition error_ident (name : string) : string := to_pascal_case name.
+(* generate_errors: the IDL's spelling when it is an identifier (fn is_upper_camel_ident), else
+   PascalCase: the ReplyError derive builds the wire name from the variant identifier *)
+Definition is_upper_camel_ident (name : string) : bool := type_name_ok name && negb (is_rust_keyword name).
+Definition error_ident (name : string) : string :=
+  if is_upper_camel_ident name then name else to_pascal_case name.
 Definition gen_error (e : ierror) : gevariant :=
   {| gev_ident := error_ident (e_name e); gev_fields := map gen_error_field (e_fields e) |}.
 
